@@ -139,15 +139,23 @@ static inline void __parsec_data_copy_release(parsec_data_copy_t** copy)
         }
         return;
     }
-    PARSEC_OBJ_RELEASE(*copy);
+    /* The count this release leaves behind decides what follows: reading the
+     * counter again afterwards races with the other holders of the copy (two
+     * concurrent releases could both see the last reference, the one of the data
+     * itself, and both release the self-contained data; or read a freed copy). */
+    int32_t refs_left = parsec_obj_update((parsec_object_t *)data_copy, -1);
+    if( 0 == refs_left ) {
+        ((parsec_object_t *)data_copy)->obj_release((parsec_object_t *)data_copy);
+        *copy = NULL;
+    }
     if( release_protected_cpu_mirror ) {
         if( parsec_data_release_self_contained_data(original) && releasing_protected_cpu_mirror ) {
             *copy = NULL;
         }
         return;
     }
-    if ((NULL != *copy) && (NULL != (*copy)->original) && (1 == (*copy)->super.super.obj_reference_count))
-        parsec_data_release_self_contained_data((*copy)->original);
+    if( (1 == refs_left) && (NULL != original) )
+        parsec_data_release_self_contained_data(original);
 }
 #define PARSEC_DATA_COPY_RELEASE(COPY) \
     __parsec_data_copy_release(&(COPY))
